@@ -140,6 +140,19 @@ def main():
     out = {"outcome": "returned"}
     try:
         im = os.path.join(d, "im.fits")
+        if spec.get("pre"):
+            # process history: an earlier BANE call in this process on the SAME file name, whose
+            # contents (size, BSCALE, number of axes) are then replaced by the image under test
+            pre = dict({k: v for k, v in spec.items() if k not in ("pre", "nan", "inf", "sources", "grad_u",
+                                                                     "dc_u", "add_u", "scale", "stationary")},
+                       **spec["pre"])
+            write_fits(pre, im)
+            try:
+                from AegeanTools import BANE as _B
+                _B.filter_image(im, None, step_size=(int(spec["grid"]),) * 2, box_size=(int(spec["box"]),) * 2,
+                                cores=1, nslice=1)
+            except BaseException:
+                pass
         cube_index = write_fits(spec, im)
     except BaseException as e:           # the harness must never feed BANE a bad input
         print("BANE_CHILD_RESULT " + json.dumps({"outcome": "badinput", "text": str(e)[-300:]}))
